@@ -271,7 +271,9 @@ Definition prog_of (a : api) (ovr : bool) : prog ares :=
 
 (* heartBeat, lockfile.go:61-74: { ctx check; WriteFile; Chtimes; sleep } *)
 Inductive hbpc := HbOpen | HbCht | HbDone.
-Record hbst := { pc : hbpc; cancelled : bool }.
+(* [born] = cancel epoch of the lock object's cancel store when the writer was started: the writer's context is
+   cancelled as soon as the store has been cancelled since (see [hb_cancelled]) *)
+Record hbst := { pc : hbpc; born : nat }.
 
 (* ghost of one API call, used only by the theorems: [mk] a Mkdir of this call succeeded; [win] the release window
    of the call is open (it observed a stale time stamp, or it is an Unlock call, and has not attempted a Mkdir since) *)
@@ -298,11 +300,20 @@ Record state := {
   fs : fsstate;
   ngen : nat;
   cs : list cst;
+  ce : list nat;                       (* per lock OBJECT: how many times its cancel store has been cancelled *)
+  lob : list nat;                      (* lock object used by each contender (several API threads may share one object) *)
   bad : bool }.                        (* ghost: a Remove destroyed a directory whose creator was engaged and alive *)
 
 Definition init_c (o : bool) : cst :=
   {| ovr := o; cur := None; holds := false; alive := true; eng := None; hbs := []; gh := {| mk := false; win := false |} |}.
-Definition init (ovrs : list bool) : state := {| fs := None; ngen := 0; cs := map init_c ovrs; bad := false |}.
+(* [objs]: object of each contender; a contender beyond the end of the list uses its own object (= its index) *)
+Definition init (ovrs : list bool) (objs : list nat) : state :=
+  {| fs := None; ngen := 0; cs := map init_c ovrs; bad := false; ce := map (fun _ => 0) ovrs; lob := objs |}.
+
+Definition obj_of (s : state) (c : nat) : nat := nth c (lob s) c.
+Definition epoch (s : state) (o : nat) : nat := nth o (ce s) 0.
+(* the context of heartbeat writer h of contender c is cancelled *)
+Definition hb_cancelled (s : state) (c : nat) (h : hbst) : bool := Nat.ltb (born h) (epoch s (obj_of s c)).
 
 Fixpoint set_nth {A} (l : list A) (n : nat) (a : A) : list A :=
   match l, n with
@@ -310,6 +321,14 @@ Fixpoint set_nth {A} (l : list A) (n : nat) (a : A) : list A :=
   | _ :: t, 0 => a :: t
   | h :: t, S m => h :: set_nth t m a
   end.
+
+(* store.Cancel() on lock object o *)
+Definition bump (l : list nat) (o : nat) : list nat := set_nth l o (S (nth o l 0)).
+
+(* another API thread is inside a call on the lock object of contender c *)
+Definition obj_busy (s : state) (c : nat) : bool :=
+  existsb (fun dx => Nat.eqb (obj_of s (fst dx)) (obj_of s c) && match cur (snd dx) with Some _ => true | None => false end)
+          (combine (seq 0 (length (cs s))) (cs s)).
 
 (* the creator of the present directory is engaged with it and alive *)
 Definition live_owner (f : fsstate) (l : list cst) : bool :=
@@ -344,11 +363,8 @@ Inductive item :=
 | IKill (c : nat)                           (* contender c dies while holding (its heartbeat stops) *)
 | IDeadline (c : nat).                      (* the deadline of c's LockWithTimeout call fires (at any point of the call) *)
 
-Definition cancel_all (l : list hbst) : list hbst :=
-  map (fun h => {| pc := pc h; cancelled := true |}) l.
-
 (* what happens when the program of an API call reaches [Ret v] *)
-Definition finish (x : cst) (a : api) (v : ares) : cst * option ares :=
+Definition finish (x : cst) (a : api) (v : ares) (e : nat) : cst * option ares :=
   match a, v with
   | LockWTX, _ =>
       (* timed out: the result of the action is discarded (also a success: the directory then stays behind, its
@@ -356,7 +372,7 @@ Definition finish (x : cst) (a : api) (v : ares) : cst * option ares :=
       ({| ovr := ovr x; cur := None; holds := holds x; alive := alive x; eng := eng x; hbs := hbs x; gh := gh x |}, Some ACancelled)
   | Unlock, _ => ({| ovr := ovr x; cur := None; holds := holds x; alive := alive x; eng := eng x; hbs := hbs x; gh := gh x |}, Some v)
   | _, AOk => ({| ovr := ovr x; cur := None; holds := true; alive := alive x; eng := eng x;
-                 hbs := hbs x ++ [{| pc := HbOpen; cancelled := false |}]; gh := gh x |}, Some AOk)
+                 hbs := hbs x ++ [{| pc := HbOpen; born := e |}]; gh := gh x |}, Some AOk)
   | Lock, ALocked | LockWT, ALocked =>
       (* Lock, lockfile.go:172-189: wait timeBetweenLockTries, TryLock again *)
       ({| ovr := ovr x; cur := Some (a, prog_of a (ovr x)); holds := holds x; alive := alive x; eng := eng x; hbs := hbs x; gh := gh x |}, None)
@@ -372,17 +388,20 @@ Definition exec (s : state) (it : item) : option (state * option obs) :=
           | Some _ => None
           | None =>
             if negb (alive x) then None else
+            if obj_busy s c then None else          (* one API thread at a time inside a call on one lock object *)
             if is_acquire a then
               if holds x then None else
-              Some ({| fs := fs s; ngen := ngen s; bad := bad s;
+              Some ({| fs := fs s; ngen := ngen s; bad := bad s; ce := ce s; lob := lob s;
                        cs := set_nth (cs s) c {| ovr := ovr x; cur := Some (a, prog_of a (ovr x)); holds := false; alive := true;
                                                  eng := eng x; hbs := hbs x; gh := {| mk := false; win := false |} |} |}, None)
             else
               if negb (holds x) then None else
-              (* Unlock begins: l.cancelStore.Cancel() — the holder has begun to release *)
-              Some ({| fs := fs s; ngen := ngen s; bad := bad s;
+              (* Unlock begins: l.cancelStore.Cancel() — every heartbeat writer started through this lock OBJECT is
+                 cancelled; the holder has begun to release *)
+              Some ({| fs := fs s; ngen := ngen s; bad := bad s; lob := lob s;
+                       ce := (if ul_cancel_first F then bump (ce s) (obj_of s c) else ce s);
                        cs := set_nth (cs s) c {| ovr := ovr x; cur := Some (a, prog_of a (ovr x)); holds := false; alive := true;
-                                                 eng := None; hbs := (if ul_cancel_first F then cancel_all (hbs x) else hbs x);
+                                                 eng := None; hbs := hbs x;
                                                  gh := {| mk := false; win := true |} |} |}, None)
           end
       | None => None
@@ -393,7 +412,7 @@ Definition exec (s : state) (it : item) : option (state * option obs) :=
           match cur x with
           | Some _ => None
           | None => if alive x && holds x then
-              Some ({| fs := fs s; ngen := ngen s; bad := bad s;
+              Some ({| fs := fs s; ngen := ngen s; bad := bad s; ce := ce s; lob := lob s;
                        cs := set_nth (cs s) c {| ovr := ovr x; cur := None; holds := holds x; alive := false; eng := eng x; hbs := hbs x; gh := gh x |} |}, None)
               else None
           end
@@ -404,7 +423,10 @@ Definition exec (s : state) (it : item) : option (state * option obs) :=
       | Some x =>
           match cur x with
           | Some (LockWT, p) =>
-              Some ({| fs := fs s; ngen := ngen s; bad := bad s;
+              (* the timeout branch of RunActionWithTimeoutAndCancelStore cancels the action's and the timeout's contexts
+                 only — or, if the facts say so, the whole store of the lock object (heartbeat writers included) *)
+              Some ({| fs := fs s; ngen := ngen s; bad := bad s; lob := lob s;
+                       ce := (if lwt_timeout_cancels_store F then bump (ce s) (obj_of s c) else ce s);
                        cs := set_nth (cs s) c {| ovr := ovr x; cur := Some (LockWTX, p); holds := holds x; alive := alive x;
                                                  eng := eng x; hbs := hbs x; gh := gh x |} |}, None)
           | _ => None
@@ -423,8 +445,8 @@ Definition exec (s : state) (it : item) : option (state * option obs) :=
               let eng' := if created then Some (ngen s) else eng x in
               let gh' := upd (gh x) o r in
               let x1 := {| ovr := ovr x; cur := Some (a, nxt a (k r)); holds := holds x; alive := alive x; eng := eng'; hbs := hbs x; gh := gh' |} in
-              let '(x2, ret) := match nxt a (k r) with Ret v => finish x1 a v | _ => (x1, None) end in
-              Some ({| fs := fs'; ngen := if created then S (ngen s) else ngen s; bad := bad'; cs := set_nth (cs s) c x2 |},
+              let '(x2, ret) := match nxt a (k r) with Ret v => finish x1 a v (epoch s (obj_of s c)) | _ => (x1, None) end in
+              Some ({| fs := fs'; ngen := if created then S (ngen s) else ngen s; bad := bad'; ce := ce s; lob := lob s; cs := set_nth (cs s) c x2 |},
                     Some {| o_op := opc_of o; o_res := resc_of r; o_ret := ret |})
           | _ => None
           end
@@ -440,16 +462,16 @@ Definition exec (s : state) (it : item) : option (state * option obs) :=
               | HbDone => None
               | HbOpen =>
                   let '(fs', r) := sem c (ngen s) age (fs s) OOpenHb in
-                  Some ({| fs := fs'; ngen := ngen s; bad := bad s;
+                  Some ({| fs := fs'; ngen := ngen s; bad := bad s; ce := ce s; lob := lob s;
                            cs := set_nth (cs s) c {| ovr := ovr x; cur := cur x; holds := holds x; alive := alive x; eng := eng x;
                                                      hbs := set_nth (hbs x) k {| pc := (match r with ROk => HbCht | _ => if hb_stops_on_write_error F then HbDone else HbCht end);
-                                                                                 cancelled := cancelled h |}; gh := gh x |} |},
+                                                                                 born := born h |}; gh := gh x |} |},
                         Some {| o_op := COpenFile; o_res := resc_of r; o_ret := None |})
               | HbCht =>
                   let '(fs', r) := sem c (ngen s) age (fs s) (OChtimes PHb) in
-                  Some ({| fs := fs'; ngen := ngen s; bad := bad s;
+                  Some ({| fs := fs'; ngen := ngen s; bad := bad s; ce := ce s; lob := lob s;
                            cs := set_nth (cs s) c {| ovr := ovr x; cur := cur x; holds := holds x; alive := alive x; eng := eng x;
-                                                     hbs := set_nth (hbs x) k {| pc := if cancelled h then HbDone else HbOpen; cancelled := cancelled h |};
+                                                     hbs := set_nth (hbs x) k {| pc := if hb_cancelled s c h then HbDone else HbOpen; born := born h |};
                                                      gh := gh x |} |},
                         Some {| o_op := CChtimes PHb; o_res := resc_of r; o_ret := None |})
               end
@@ -508,6 +530,7 @@ Fixpoint obs_list_eqb (a b : list (option obs)) : bool :=
    live holder's directory removed. *)
 Record case := {
   c_ovr : list bool;
+  c_objs : list nat;        (* lock object of each contender ([] = one object each) *)
   c_items : list item;
   c_obs : list (option obs);
   c_holders : nat;
@@ -518,7 +541,7 @@ Record case := {
 Definition ob (o : opc) (r : resc) (ret : option ares) : option obs := Some {| o_op := o; o_res := r; o_ret := ret |}.
 
 Definition check_case0 (k : case) : bool :=
-  match run (init (c_ovr k)) (c_items k) with
+  match run (init (c_ovr k) (c_objs k)) (c_items k) with
   | None => false
   | Some (s, os) => obs_list_eqb os (c_obs k) && Nat.eqb (live_holders s) (c_holders k) && Bool.eqb (bad s) (c_bad k)
                     && Nat.eqb (c_zombies k) 0
@@ -560,8 +583,8 @@ Definition obs_of (e : entry) : option obs :=
   | _ => None
   end.
 
-Definition mkCase (ovr : list bool) (es : list entry) (holders : nat) (b : bool) (z : nat) (atomic : bool) : case :=
-  {| c_ovr := ovr; c_items := map item_of es; c_obs := map obs_of es; c_holders := holders; c_bad := b; c_zombies := z;
+Definition mkCase (ovr : list bool) (objs : list nat) (es : list entry) (holders : nat) (b : bool) (z : nat) (atomic : bool) : case :=
+  {| c_ovr := ovr; c_objs := objs; c_items := map item_of es; c_obs := map obs_of es; c_holders := holders; c_bad := b; c_zombies := z;
      c_atomic := atomic |}.
 
 (* ---------- the staleness oracle's proviso, as a check on a schedule ----------
@@ -576,7 +599,7 @@ Fixpoint respects_oracle (s : state) (its : list item) : bool :=
   end.
 
 Definition final (ovrs : list bool) (its : list item) : option state :=
-  match run (init ovrs) its with Some (s, _) => Some s | None => None end.
+  match run (init ovrs []) its with Some (s, _) => Some s | None => None end.
 
 (* ---------- the restricted relation of lock_mutex_under_atomic_release ----------
    Release window of a call: open from the start of an Unlock call, or from the moment the call reads a time stamp
@@ -624,6 +647,6 @@ Definition judge_max (s : state) : bool := negb (live_owner (fs s) (cs s)).
    no destroyed lock, at most one holder — which the observation comparison then transfers to the implementation). *)
 Definition check_case (k : case) : bool :=
   check_case0 k &&
-  implb (c_atomic k) (match rrun judge_max (init (c_ovr k)) (c_items k) with Some s => negb (bad s) | None => false end).
+  implb (c_atomic k) (match rrun judge_max (init (c_ovr k) (c_objs k)) (c_items k) with Some s => negb (bad s) | None => false end).
 
 End WithFacts.
